@@ -17,7 +17,15 @@ const KEYWORDS: &[&str] = &[
     "ANTENNAMODEL", "ANTENNADIFFAREA", "ANTENNAGATEAREA", "ANTENNAPARTIALMETALAREA", "ANTENNAMAXCUTCAR", "DEFAULT", "VIARULE", "CUTSIZE", "LAYERS", "CUTSPACING", "ENCLOSURE", "ROWCOL", "OFFSET", "PATTERN",
     "PROPERTYDEFINITIONS", "STRING", "REAL", "RANGE", "INTEGER", "MAXVIASTACK", "GENERATE", "NONDEFAULTRULE", "CORE", "PAD", "ON", "OFF", "X", "R90", "N", "FS",
 ];
-const NONASCII: &[&str] = &["é", "ß", "Ω", "中", "語", "😀", "\u{00A0}", "\u{2003}", "\u{FEFF}", "\u{2028}", "д", "\u{0301}"];
+const NONASCII: &[&str] = &[
+    "é", "ß", "Ω", "中", "語", "😀", "\u{00A0}", "\u{2003}", "\u{FEFF}", "\u{2028}", "д", "\u{0301}",
+    // numerals outside ASCII (decimal digits of other scripts, fractions, superscripts, circled and Roman numerals)
+    "５", "٣", "९", "½", "²", "①", "Ⅷ",
+    // characters whose upper/lower-case form has another length (case-insensitive keyword matching), title case, ligatures
+    "ŉ", "ﬁ", "İ", "ǅ", "ı",
+    // more white-space and format characters: vertical tab, form feed, NEL, ideographic space, zero-width joiner, right-to-left mark
+    "\u{0B}", "\u{0C}", "\u{85}", "\u{3000}", "\u{200D}", "\u{200F}",
+];
 
 /// Token spans (byte ranges) of a LEF text by the language's lexical rules: whitespace-separated, `#` comments to end of line, "..." literals
 fn token_spans(text: &str) -> (Vec<(usize, usize)>, Vec<(usize, usize)>) {
@@ -213,6 +221,17 @@ impl C11 {
             self.probe(cx, &ins(at, &format!("# {} commentaire\n", s)), "nonascii-comment-line");
             cx.count_n("fault.nonascii-line", 2);
         }
+        // a word that BEGINS with such a character as the last thing in the input (optionally one blank or one more multi-byte character after it)
+        for _ in 0..12 {
+            let (a, _) = *cx.rng.pick(&toks);
+            let s = *cx.rng.pick(NONASCII);
+            let tail = *cx.rng.pick(&["", " ", "é", "x", "9", "\n"]);
+            let mut v = text.as_bytes()[..a].to_vec();
+            v.extend_from_slice(s.as_bytes());
+            v.extend_from_slice(tail.as_bytes());
+            self.probe(cx, &v, "nonascii-word-at-end");
+            cx.count("fault.nonascii-word-at-end");
+        }
         // CRLF everywhere
         self.probe(cx, text.replace('\n', "\r\n").as_bytes(), "crlf");
     }
@@ -227,7 +246,7 @@ impl Prop for C11 {
     }
     fn rule(&self) -> String {
         "Seeds: LEF texts from the independent renderer (random lexical style, with and without non-ASCII comments) and the repository's .lef files. Per seed: EVERY prefix at a character boundary plus mid-character cuts (invalid UTF-8 must surface as an I/O error); for EVERY token: deleted, duplicated, swapped with its neighbour, \
-         replaced by 12 keywords (6 rotating through the full keyword list + END/MACRO/LAYER/PROPERTY/BEGINEXT/PIN), by numbers (17, -0.5, 1e9, '-', '.', '1.2.3', a 35-digit number), by ';', by an unterminated string, by an empty string, by '#'; insertion of 2/3/4-byte characters, combining marks, BOM and non-ASCII whitespace (U+00A0, U+2003, U+2028) \
+         replaced by 12 keywords (6 rotating through the full keyword list + END/MACRO/LAYER/PROPERTY/BEGINEXT/PIN), by numbers (17, -0.5, 1e9, '-', '.', '1.2.3', a 35-digit number), by ';', by an unterminated string, by an empty string, by '#'; insertion of 2/3/4-byte characters, combining marks, BOM, non-ASCII numerals (other scripts' digits, fractions, superscripts, Roman), characters whose case mapping changes length, and non-ASCII whitespace/format characters (U+000B/000C/0085/00A0/2003/2028/3000/200D/200F), also as the first character of the last word of the input, \
          into names, numbers, string literals, comments and at line starts; CRLF conversion; whole libraries on one >200-byte line threaded with multi-byte characters and then truncated / faulted (error reports over long non-ASCII lines); numeric literals at the limits of 96-bit decimals and machine integers; random noise. Monitors on each LefLibrary::open: panic capture; logical step budgets via hooks (characters consumed <= chars+2, parser steps <= 40*tokens+200, error-report scan <= 201 chars per report); every Ok(lib) must survive to_string -> open without a crash. \
          distinct_nontrivial = distinct seed texts."
             .into()
